@@ -494,9 +494,9 @@ Proof.
     + now apply Nsorted_upsert.
     + intros b h. rewrite Nlookup_upsert. destruct (b =? vl_bucket m) eqn:E.
       * apply N.eqb_eq in E. intro H. inversion H; subst. repeat split.
-        cbn [vl_bucket vl_fid]. rewrite Plookup_upsert.
-        replace (pair_eqb (vl_bucket m, vl_fid m) (vl_bucket m, vl_fid m)) with true; [reflexivity|].
-        symmetry. now apply Peqb_spec.
+        rewrite Plookup_upsert.
+        assert (Ek : pair_eqb (vl_bucket m', vl_fid m') (vl_bucket m, vl_fid m) = true) by (apply Peqb_spec; reflexivity).
+        now rewrite Ek.
       * intro H. destruct (wi_hd0 b h H) as (H1 & H2 & H3). repeat split; try assumption.
         rewrite Plookup_upsert. destruct (pair_eqb (vl_bucket h, vl_fid h) (vl_bucket m, vl_fid m)) eqn:E2; [|exact H3].
         apply Peqb_spec in E2. inversion E2. lia.
@@ -508,7 +508,7 @@ Proof.
     + now apply Psorted_upsert.
     + intros k x. rewrite Plookup_upsert. destruct (pair_eqb k (vl_bucket m, vl_fid m)) eqn:E; [|apply wi_vl0].
       apply Peqb_spec in E. intro H. inversion H; subst. split; [reflexivity|].
-      unfold vlog_ok. cbn. repeat split; try assumption. unfold two64. lia.
+      unfold vlog_ok. cbn. repeat split; try assumption; try (unfold two64; lia).
     + destruct (head_is v (vl_bucket m) (vl_fid m)); [now apply Nsorted_remove|assumption].
     + apply (heads_keep v _ m' _ Hw0). intros b h Hl.
       destruct (head_is v (vl_bucket m) (vl_fid m)) eqn:Eh.
